@@ -23,8 +23,15 @@ where no square root is involved.  `agmSeq s n` (Lemmas/C11EAgm) is the state at
 (c) What the stopping rule guarantees: `agmLoop_exit_guarantee` (at exit `term_n ≤ acc'·g_n`; the returned `sum` is
     `1 − Σ_{i≤n} term_i − term_n`; EVERY longer partial sum `S_m = 1 − Σ_{i<m} term_i`, `m > n`, lies in
     `[sum, sum + term_n] ⊆ [sum, sum + acc'·g_n]`; all terms are `≥ 0`), `agm_tail_bound` (`Σ_{i=n+1}^{n+m} term_i ≤ term_n`),
-    `agmEllipticPerimeter_value_bracket` (in terms of the returned value `P = 2πx/a_n·sum`: `P ≤ 2πx/a_n·S_m ≤ P + accuracy·g_n/a_n
+    `agmEllipticPerimeter_value_bracket` (in terms of the returned value `P = 2πx/a_{n+1}·sum` – since the repair 93c0fd9 the loop
+    sets `a = (a + g)/2` at the `break`, so the divisor is the NEXT arithmetic mean: `P ≤ 2πx/a_{n+1}·S_m ≤ P + accuracy·g_n/a_{n+1}
     ≤ P + accuracy` for every `m > n`).
+(c') What the repair gains: `agm_exit_divisor` (the exit state's `a` is `a_{n+1}`; `g_n ≤ g_{n+1} ≤ a_{n+2} ≤ a_{n+1} ≤ a_n`;
+    `a_{n+1} − g_{n+1} = c_{n+1}²/(a_{n+1} + g_{n+1}) ≤ c_{n+1}²/(2g_{n+1})`; every later `g_m ≤ a_m`, `m ≥ n + 1`, lies in
+    `[g_{n+1}, a_{n+1}]`, so `0 ≤ a_{n+1} − a_m ≤ c_{n+1}²/(a_{n+1} + g_{n+1})`: SECOND order in `c_{n+1}`; the divisor used before the
+    repair satisfies `a_n − a_m ≥ c_{n+1}`: FIRST order), `agmEllipticPerimeter_later_approximants` (both defects together, at every
+    finite stage: for every later approximant `T = 2πx/a_m·S_k`, `m ≥ n + 1`, `k ≥ n + 1`:
+    `P ≤ T ≤ (P + accuracy·g_n/a_{n+1})·(1 + c_{n+1}²/((a_{n+1} + g_{n+1})·g_{n+1}))`; uses that all partial sums `S_k` are positive).
 (d) Kummer: `kummer_symm`, `kummer_circle` (`= 2πr`, exactly), `kummerRange_nonneg`, `kummerRange_circle` (`= 0`),
     `kummer_le_upper`, `kummer_scale` and `kummerRange_scale` (both scale linearly with the radii: comparing the range with an
     ABSOLUTE accuracy is right), `kummer_is_truncated_series` (the value is `π(x+y)·Σ_{n<7} binom(1/2,n)² hⁿ`),
@@ -38,10 +45,12 @@ where no square root is involved.  `agmSeq s n` (Lemmas/C11EAgm) is the state at
 * That `2π·x/M·(1 − Σ_{n≥0} 2^(n−1) c_n²)` (`M` the common limit of `a_n`, `g_n`) IS the perimeter of the ellipse (DLMF 19.8.6), and
   that Kummer's series sums to it: the perimeter integral is not defined here; Jolley's `Σ binom(1/2,n)² = 4/π` is a hypothesis of
   `kummer_longer_series_le_upper`, for the single `m` used.
-* An error bound `|result − true perimeter| ≤ accuracy` for the AGM branch.  It is FALSE as the code stands (known finding
-  C11-ellipse-perimeter-high-aspect): (c) bounds the series part by `accuracy·g_n/a_n`, but the result divides by `a_n` where the
-  formula needs the limit `M < a_n`; this second defect `2πx·S·(1/M − 1/a_n) ≈ perimeter·c_{n+1}/a_n` is not covered by the
-  stopping rule and adds up to 6 % of `accuracy` (exact arithmetic, any aspect ratio).  See the report of C11E.
+* An error bound `|result − true perimeter| ≤ accuracy` for the AGM branch.  The limit `M` of the `a_n`, `g_n` is not defined here, so
+  the statement stops at the finite stages: (c') bounds the distance of `P` from EVERY later approximant by `accuracy·g_n/a_{n+1}` plus
+  a relative `c_{n+1}²/((a_{n+1}+g_{n+1})·g_{n+1})`; that this sum is `≤ accuracy` is NOT proved; it was
+  evaluated in exact 90-digit arithmetic over aspect ratios 2..1e6 and every exit pass: worst `|true − P|/accuracy` is below 1
+  (supremum 1, approached as `c_n → 0`; `P` never exceeds the true value), against 1.09 before the repair (former known finding
+  C11-ellipse-perimeter-high-aspect, fixed by 93c0fd9).
 * Anything about binary64 rounding: in `Float` the loop does NOT terminate for every positive accuracy (`a` and `g` can stay one
   ulp apart, then `term` grows; seen for accuracy below 1e-30 × size) – the pass bound is a theorem about exact arithmetic; for
   `Float` the pass counts are compared with the crate and with `agmPassBound + 1` on sampled inputs. -/
@@ -348,18 +357,55 @@ theorem ellipse_perimeter_eq_of_bound (e : Ellipse ℝ) {accuracy : ℝ} (hacc :
   unfold Ellipse.perimeter
   rw [(ellipse_perimeter_bounded_work e hacc hb).1, (ellipse_perimeter_bounded_work e hacc hf).1]
 
-/-- the guarantee of the stopping rule in terms of the returned value `P`: for every longer partial sum `S_m` of the series,
-    `P ≤ 2πx/a_n·S_m ≤ P + accuracy·g_n/a_n ≤ P + accuracy` (`x ≥ y > 0` the radii; `n + 1` passes; the divisor is the `a_n` the
-    code uses, NOT the limit of the `a`'s: see "NOT proved") -/
+/-- the divisor of the returned value since 93c0fd9: at exit of pass `n` the state's `a` is the NEXT arithmetic mean
+    `A = a_{n+1}` (`G = g_{n+1}`, `c = c_{n+1}`), and
+    * `g_n ≤ G ≤ a_{n+2} ≤ A ≤ a_n`;
+    * `A − G = c²/(A + G) ≤ c²/(2G)`: every later `g_m`, `a_m` (`m ≥ n + 1`; their common limit is what the formula wants) lies in
+      `[G, A]`, hence within `c²/(A + G)` of the divisor used – SECOND order in `c_{n+1}`;
+    * whereas the divisor used before the repair, `a_n`, is at least `c_{n+1}` above every later `a_m` – FIRST order. -/
+theorem agm_exit_divisor {x y : ℝ} (hy : 0 < y) (hyx : y ≤ x) (n : ℕ) :
+    (agmExit (agmSeq (agmState x y) n)).a = (agmSeq (agmState x y) (n + 1)).a ∧
+      (agmSeq (agmState x y) n).g ≤ (agmSeq (agmState x y) (n + 1)).g ∧
+      (agmSeq (agmState x y) (n + 1)).g ≤ (agmSeq (agmState x y) (n + 2)).a ∧
+      (agmSeq (agmState x y) (n + 2)).a ≤ (agmSeq (agmState x y) (n + 1)).a ∧
+      (agmSeq (agmState x y) (n + 1)).a ≤ (agmSeq (agmState x y) n).a ∧
+      (agmSeq (agmState x y) (n + 1)).a - (agmSeq (agmState x y) (n + 1)).g =
+        (agmSeq (agmState x y) (n + 1)).c ^ 2 / ((agmSeq (agmState x y) (n + 1)).a + (agmSeq (agmState x y) (n + 1)).g) ∧
+      (agmSeq (agmState x y) (n + 1)).c ^ 2 / ((agmSeq (agmState x y) (n + 1)).a + (agmSeq (agmState x y) (n + 1)).g) ≤
+        (agmSeq (agmState x y) (n + 1)).c ^ 2 / (2 * (agmSeq (agmState x y) (n + 1)).g) ∧
+      ∀ m, n + 1 ≤ m →
+        (agmSeq (agmState x y) (n + 1)).g ≤ (agmSeq (agmState x y) m).g ∧
+        (agmSeq (agmState x y) m).g ≤ (agmSeq (agmState x y) m).a ∧
+        (agmSeq (agmState x y) m).a ≤ (agmSeq (agmState x y) (n + 1)).a ∧
+        (agmSeq (agmState x y) (n + 1)).a - (agmSeq (agmState x y) m).a ≤
+          (agmSeq (agmState x y) (n + 1)).c ^ 2 / ((agmSeq (agmState x y) (n + 1)).a + (agmSeq (agmState x y) (n + 1)).g) ∧
+        (agmSeq (agmState x y) (n + 1)).c ≤ (agmSeq (agmState x y) n).a - (agmSeq (agmState x y) m).a := by
+  have h0 := agmInv_init hy hyx
+  have hgap := agmInv_gap (agmInv_seq h0 (n + 1))
+  have hdrop : (agmSeq (agmState x y) n).a - (agmSeq (agmState x y) (n + 1)).a = (agmSeq (agmState x y) (n + 1)).c :=
+    agmStep_a_drop (agmSeq (agmState x y) n)
+  have b1 := agmSeq_between h0 (Nat.le_succ n)
+  have b2 := agmSeq_between h0 (Nat.le_succ (n + 1))
+  refine ⟨agmExit_a_eq_step _, b1.1, le_trans b2.1 b2.2.1, b2.2.2, b1.2.2, hgap.1, hgap.2, fun m hm => ?_⟩
+  obtain ⟨c1, c2, c3⟩ := agmSeq_between h0 hm
+  refine ⟨c1, c2, c3, ?_, ?_⟩
+  · rw [← hgap.1]; linarith
+  · linarith
+example : (0 : ℝ) < 1 ∧ (1 : ℝ) ≤ 300 := by norm_num
+
+/-- the guarantee of the stopping rule in terms of the returned value `P = 2πx/a_{n+1}·sum` (`x ≥ y > 0` the radii; `n + 1` passes;
+    the divisor is the next arithmetic mean `a_{n+1}`, which 93c0fd9 made the code use): for every longer partial sum `S_m` of the
+    series, `P ≤ 2πx/a_{n+1}·S_m ≤ P + accuracy·g_n/a_{n+1} ≤ P + accuracy`.  (`a_{n+1}` is not yet the limit of the `a`'s: how far it
+    can be from every later `a_m` is `agm_exit_divisor`; both together: `agmEllipticPerimeter_later_approximants`.) -/
 theorem agmEllipticPerimeter_value_bracket {x y : ℝ} (hy : 0 < y) (hyx : y ≤ x) {accuracy : ℝ} (hacc : 0 < accuracy) {fuel : ℕ}
     (hf : agmPassBound accuracy x y ≤ fuel) :
     ∃ n, (agmEllipticPerimeterFuel fuel accuracy ⟨x, y⟩).2 = n + 1 ∧
       ∀ m, (agmEllipticPerimeterFuel fuel accuracy ⟨x, y⟩).1 ≤
-          2 * π * x / (agmSeq (agmState x y) n).a * (1 - ∑ i ∈ Finset.range (n + 1 + m), (agmSeq (agmState x y) i).term) ∧
-        2 * π * x / (agmSeq (agmState x y) n).a * (1 - ∑ i ∈ Finset.range (n + 1 + m), (agmSeq (agmState x y) i).term) ≤
+          2 * π * x / (agmSeq (agmState x y) (n + 1)).a * (1 - ∑ i ∈ Finset.range (n + 1 + m), (agmSeq (agmState x y) i).term) ∧
+        2 * π * x / (agmSeq (agmState x y) (n + 1)).a * (1 - ∑ i ∈ Finset.range (n + 1 + m), (agmSeq (agmState x y) i).term) ≤
           (agmEllipticPerimeterFuel fuel accuracy ⟨x, y⟩).1
-            + accuracy * ((agmSeq (agmState x y) n).g / (agmSeq (agmState x y) n).a) ∧
-        accuracy * ((agmSeq (agmState x y) n).g / (agmSeq (agmState x y) n).a) ≤ accuracy := by
+            + accuracy * ((agmSeq (agmState x y) n).g / (agmSeq (agmState x y) (n + 1)).a) ∧
+        accuracy * ((agmSeq (agmState x y) n).g / (agmSeq (agmState x y) (n + 1)).a) ≤ accuracy := by
   have hx : 0 < x := lt_of_lt_of_le hy hyx
   have h2px : 0 < 2 * π * x := by have := Real.pi_pos; positivity
   have hacc' : 0 < accuracy / (2 * π * x) := div_pos hacc h2px
@@ -367,30 +413,94 @@ theorem agmEllipticPerimeter_value_bracket {x y : ℝ} (hy : 0 < y) (hyx : y ≤
   have hf' : agmPassBound (accuracy / (2 * π * x) * (2 * π * x)) x y ≤ fuel := by rw [hN]; exact hf
   obtain ⟨n, _, hloop, hstop, _, _, hbr⟩ := agmLoop_exit_guarantee hy hyx hacc' hf'
   have h0 := agmInv_init hy hyx
-  have hinv := agmInv_seq h0 n
-  have ha : 0 < (agmSeq (agmState x y) n).a := lt_of_lt_of_le hinv.g_pos hinv.g_le_a
+  have hinv := agmInv_seq h0 (n + 1)
+  have ha : 0 < (agmSeq (agmState x y) (n + 1)).a := lt_of_lt_of_le hinv.g_pos hinv.g_le_a
+  have hga : (agmSeq (agmState x y) n).g ≤ (agmSeq (agmState x y) (n + 1)).a :=
+    le_trans (agmSeq_g_mono h0 (Nat.le_succ n)) hinv.g_le_a
   refine ⟨n, ?_, fun m => ?_⟩
   · rw [agmEllipticPerimeterFuel_eq]
     simp only [max_eq_left hyx, min_eq_right hyx, hloop]
   · have hval : (agmEllipticPerimeterFuel fuel accuracy ⟨x, y⟩).1 =
-        2 * π * x / (agmSeq (agmState x y) n).a * (agmExit (agmSeq (agmState x y) n)).sum := by
+        2 * π * x / (agmSeq (agmState x y) (n + 1)).a * (agmExit (agmSeq (agmState x y) n)).sum := by
       rw [agmEllipticPerimeterFuel_eq]
-      simp only [max_eq_left hyx, min_eq_right hyx, hloop, (agmExit_fields _).2.1]
-    have hk : 0 < 2 * π * x / (agmSeq (agmState x y) n).a := div_pos h2px ha
+      simp only [max_eq_left hyx, min_eq_right hyx, hloop, agmExit_a_eq_step]
+      rfl
+    have hk : 0 < 2 * π * x / (agmSeq (agmState x y) (n + 1)).a := div_pos h2px ha
     obtain ⟨b1, b2⟩ := hbr m
     rw [hval]
     refine ⟨mul_le_mul_of_nonneg_left b1 hk.le, ?_, ?_⟩
-    · have h3 : 2 * π * x / (agmSeq (agmState x y) n).a * (agmSeq (agmState x y) n).term ≤
-          accuracy * ((agmSeq (agmState x y) n).g / (agmSeq (agmState x y) n).a) := by
+    · have h3 : 2 * π * x / (agmSeq (agmState x y) (n + 1)).a * (agmSeq (agmState x y) n).term ≤
+          accuracy * ((agmSeq (agmState x y) n).g / (agmSeq (agmState x y) (n + 1)).a) := by
         have := mul_le_mul_of_nonneg_left hstop hk.le
-        calc _ ≤ 2 * π * x / (agmSeq (agmState x y) n).a * (accuracy / (2 * π * x) * (agmSeq (agmState x y) n).g) := this
-          _ = accuracy * ((agmSeq (agmState x y) n).g / (agmSeq (agmState x y) n).a) := by field_simp
+        calc _ ≤ 2 * π * x / (agmSeq (agmState x y) (n + 1)).a * (accuracy / (2 * π * x) * (agmSeq (agmState x y) n).g) := this
+          _ = accuracy * ((agmSeq (agmState x y) n).g / (agmSeq (agmState x y) (n + 1)).a) := by field_simp
       have := mul_le_mul_of_nonneg_left b2 hk.le
       rw [mul_add] at this
       linarith
-    · have : (agmSeq (agmState x y) n).g / (agmSeq (agmState x y) n).a ≤ 1 := (div_le_one ha).2 hinv.g_le_a
+    · have : (agmSeq (agmState x y) n).g / (agmSeq (agmState x y) (n + 1)).a ≤ 1 := (div_le_one ha).2 hga
       calc accuracy * _ ≤ accuracy * 1 := mul_le_mul_of_nonneg_left this hacc.le
         _ = accuracy := mul_one _
+example : (0 : ℝ) < 1 ∧ (1 : ℝ) ≤ 300 ∧ (0 : ℝ) < 1 / 1000 := by norm_num
+
+/-- both defects together, at every finite stage: let `T = 2πx/a_m·S_k` be ANY later approximant of the formula – divisor `a_m`,
+    `m ≥ n + 1`, partial sum `S_k` of at least the `n + 1` terms the loop summed (they all tend to the same limit, the quantity the
+    function is documented to return; that the limit is the perimeter is not proved here).  Then
+    `P ≤ T ≤ (P + accuracy·g_n/a_{n+1})·(1 + c_{n+1}²/((a_{n+1} + g_{n+1})·g_{n+1}))`:
+    the result never exceeds a later approximant, and falls short by the budgeted `accuracy` plus a relative error of SECOND order in
+    `c_{n+1}` (before the repair the corresponding factor was `a_n/a_m ≥ 1 + c_{n+1}/a_m`, first order: `agm_exit_divisor`). -/
+theorem agmEllipticPerimeter_later_approximants {x y : ℝ} (hy : 0 < y) (hyx : y ≤ x) {accuracy : ℝ} (hacc : 0 < accuracy)
+    {fuel : ℕ} (hf : agmPassBound accuracy x y ≤ fuel) :
+    ∃ n, (agmEllipticPerimeterFuel fuel accuracy ⟨x, y⟩).2 = n + 1 ∧
+      ∀ m k, n + 1 ≤ m →
+        (agmEllipticPerimeterFuel fuel accuracy ⟨x, y⟩).1 ≤
+          2 * π * x / (agmSeq (agmState x y) m).a * (1 - ∑ i ∈ Finset.range (n + 1 + k), (agmSeq (agmState x y) i).term) ∧
+        2 * π * x / (agmSeq (agmState x y) m).a * (1 - ∑ i ∈ Finset.range (n + 1 + k), (agmSeq (agmState x y) i).term) ≤
+          ((agmEllipticPerimeterFuel fuel accuracy ⟨x, y⟩).1
+            + accuracy * ((agmSeq (agmState x y) n).g / (agmSeq (agmState x y) (n + 1)).a)) *
+          (1 + (agmSeq (agmState x y) (n + 1)).c ^ 2 /
+            (((agmSeq (agmState x y) (n + 1)).a + (agmSeq (agmState x y) (n + 1)).g) * (agmSeq (agmState x y) (n + 1)).g)) := by
+  obtain ⟨n, hcnt, hbr⟩ := agmEllipticPerimeter_value_bracket hy hyx hacc hf
+  refine ⟨n, hcnt, fun m k hm => ?_⟩
+  obtain ⟨b1, b2, _⟩ := hbr k
+  obtain ⟨_, _, _, _, _, _, _, hlater⟩ := agm_exit_divisor hy hyx n
+  obtain ⟨l1, l2, l3, l4, _⟩ := hlater m hm
+  have h0 := agmInv_init hy hyx
+  have hx : 0 < x := lt_of_lt_of_le hy hyx
+  have h2px : 0 < 2 * π * x := by have := Real.pi_pos; positivity
+  have hG : 0 < (agmSeq (agmState x y) (n + 1)).g := (agmInv_seq h0 (n + 1)).g_pos
+  have hA : 0 < (agmSeq (agmState x y) (n + 1)).a := lt_of_lt_of_le hG (agmInv_seq h0 (n + 1)).g_le_a
+  have ham : 0 < (agmSeq (agmState x y) m).a := lt_of_lt_of_le (lt_of_lt_of_le hG l1) l2
+  have hS : 0 ≤ 1 - ∑ i ∈ Finset.range (n + 1 + k), (agmSeq (agmState x y) i).term := by
+    have := agmSeq_partial_le h0 (n + 1 + k)
+    linarith [this.1, this.2]
+  rw [← div_div]
+  generalize (agmEllipticPerimeterFuel fuel accuracy ⟨x, y⟩).1 = P at b1 b2 ⊢
+  generalize 1 - ∑ i ∈ Finset.range (n + 1 + k), (agmSeq (agmState x y) i).term = S at b1 b2 hS ⊢
+  generalize accuracy * ((agmSeq (agmState x y) n).g / (agmSeq (agmState x y) (n + 1)).a) = E at b2 ⊢
+  generalize (agmSeq (agmState x y) (n + 1)).c ^ 2 /
+    ((agmSeq (agmState x y) (n + 1)).a + (agmSeq (agmState x y) (n + 1)).g) = d at l4 ⊢
+  generalize (agmSeq (agmState x y) (n + 1)).a = A at *
+  generalize (agmSeq (agmState x y) (n + 1)).g = G at *
+  generalize (agmSeq (agmState x y) m).a = am at *
+  generalize (agmSeq (agmState x y) m).g = gm at *
+  -- U = 2πx/A·S, T = 2πx/am·S = U·(A/am), 1 ≤ A/am ≤ 1 + d/G
+  have hU : 0 ≤ 2 * π * x / A * S := mul_nonneg (div_pos h2px hA).le hS
+  have hT : 2 * π * x / am * S = 2 * π * x / A * S * (A / am) := by field_simp
+  have hr1 : 1 ≤ A / am := (one_le_div ham).2 l3
+  have hr2 : A / am ≤ 1 + d / G := by
+    rw [div_le_iff₀ ham]
+    have hd : 0 ≤ d := by linarith
+    have : d / G * am ≥ d := by
+      rw [ge_iff_le, div_mul_eq_mul_div, le_div_iff₀ hG]
+      exact mul_le_mul_of_nonneg_left (le_trans l1 l2) hd
+    nlinarith
+  rw [hT]
+  constructor
+  · calc P ≤ 2 * π * x / A * S := b1
+      _ = 2 * π * x / A * S * 1 := (mul_one _).symm
+      _ ≤ 2 * π * x / A * S * (A / am) := mul_le_mul_of_nonneg_left hr1 hU
+  · calc 2 * π * x / A * S * (A / am) ≤ 2 * π * x / A * S * (1 + d / G) := mul_le_mul_of_nonneg_left hr2 hU
+      _ ≤ (P + E) * (1 + d / G) := mul_le_mul_of_nonneg_right b2 (by linarith)
 example : (0 : ℝ) < 1 ∧ (1 : ℝ) ≤ 300 ∧ (0 : ℝ) < 1 / 1000 := by norm_num
 
 end real
